@@ -974,6 +974,9 @@ def run(ctx):
             # node-list arguments are renumbered with the network
             if not directed and n >= 3:
                 interacting(ctx, A, w, W, g0, perm, base)
+            elif directed and n >= 3:
+                # round 5: node groups of directed networks (counts, densities, sub-matrices)
+                interacting(ctx, A, w, W, g0, perm, base, directed=True)
             if not directed and connected and n >= 3 and gi % 3 == 0:
                 Rres = resistive(ctx, A, perm, rng, base)
                 if n <= 8:
@@ -1176,7 +1179,18 @@ def timeseries_networks(ctx, reqs, meta):
                      dict(base, y=z.tolist(), cls="InterSystemRecurrenceNetwork"))
 
 
-def interacting(ctx, A, w, W, g0, perm, base):
+# round 5: measures of node groups that are plain counts / sums / sub-matrices / directed path
+# lengths and therefore numbering independent on *directed* networks too (the clustering-, closeness-
+# and betweenness-type group measures are undirected notions, cf. the `C04-directed-*` findings)
+INTERACTING_DIRECTED_OK = {
+    "cross_degree", "cross_indegree", "cross_outdegree", "cross_link_density", "number_cross_links",
+    "total_cross_degree", "cross_degree_density", "cross_adjacency", "cross_link_attribute",
+    "cross_path_lengths", "internal_adjacency", "internal_path_lengths", "number_internal_links",
+    "internal_link_density", "internal_degree", "internal_indegree", "internal_outdegree",
+    "internal_link_attribute", "nsi_cross_degree", "nsi_internal_degree"}
+
+
+def interacting(ctx, A, w, W, g0, perm, base, directed=False):
     from pyunicorn.core import InteractingNetworks
     n = A.shape[0]
     idx = np.array(perm)
@@ -1185,8 +1199,9 @@ def interacting(ctx, A, w, W, g0, perm, base):
     L2 = [i for i in range(n) if not g0[i]]
     if not L1 or not L2:
         return
-    a = InteractingNetworks(adjacency=A, node_weights=w, silence_level=3)
-    b = InteractingNetworks(adjacency=A[idx][:, idx], node_weights=w[idx], silence_level=3)
+    a = InteractingNetworks(adjacency=A, directed=directed, node_weights=w, silence_level=3)
+    b = InteractingNetworks(adjacency=A[idx][:, idx], directed=directed, node_weights=w[idx],
+                            silence_level=3)
     a.set_link_attribute("w", W)
     b.set_link_attribute("w", W[idx][:, idx])
     P1, P2 = [int(inv[k]) for k in L1], [int(inv[k]) for k in L2]
@@ -1210,6 +1225,8 @@ def interacting(ctx, A, w, W, g0, perm, base):
                  "nsi_internal_closeness_centrality", "internal_link_attribute"):
         if not hasattr(InteractingNetworks, name):
             continue
+        if directed and name not in INTERACTING_DIRECTED_OK:
+            continue
         args_a, args_b = (L1, L2), (P1, P2)
         if name == "cross_link_attribute":
             args_a, args_b = ("w", L1, L2), ("w", P1, P2)
@@ -1228,18 +1245,21 @@ def interacting(ctx, A, w, W, g0, perm, base):
             try:
                 vb = quiet(getattr(b, name), *args_b, **kw)
             except Exception as ex:  # noqa
-                ctx.fail({"kind": "raises-on-permuted", "class": "InteractingNetworks", "measure": name},
+                ctx.fail(dict({"kind": "raises-on-permuted", "class": "InteractingNetworks", "measure": name},
+                              **({"input_class": "directed"} if directed else {})),
                          f"InteractingNetworks.{shown} raises {type(ex).__name__} on the renumbered network",
                          dict(base, measure=name, kwargs=kw, permutation=list(perm), node_list1=L1,
                               node_list2=L2))
                 continue
-            ctx.count("InteractingNetworks:measures-compared" + (":non-default-args" if kw else ""))
+            ctx.count("InteractingNetworks:measures-compared" + (":directed" if directed else "")
+                      + (":non-default-args" if kw else ""))
             # results are indexed by position in the node lists, which correspond one to one —
             # except per-node arrays over the whole network, which are permuted
             if np.asarray(va).shape == (n,) and len(L1) != n:
                 va = np.asarray(va)[idx]
             if not same_val(va, vb):
-                ctx.fail({"kind": "not-equivariant", "class": "InteractingNetworks", "measure": name},
+                ctx.fail(dict({"kind": "not-equivariant", "class": "InteractingNetworks", "measure": name},
+                              **({"input_class": "directed"} if directed else {})),
                          f"InteractingNetworks.{shown}(L1, L2) changes when nodes and node lists are "
                          f"renumbered",
                          dict(base, measure=name, kwargs=kw, permutation=list(perm), node_list1=L1,
